@@ -3,7 +3,8 @@
 The real Colang 2.x interpreter (statemachine.run_to_completion) is driven with generated flow hierarchies and small
 event histories.  A passive monitor records
 
-  * every internal event the interpreter processes (the StartFlow requests: who asked for which flow, activated or not),
+  * every internal event the interpreter processes (the StartFlow requests: who asked for which flow, activated or not;
+    for restart requests of activated flows also the moment they are queued),
   * every outgoing Start…Action / Stop…Action event with its action_uid, and every …ActionFinished event we feed in,
   * after every processed external event: the status of every flow instance and the list of action uids it holds,
 
@@ -33,8 +34,8 @@ _RUNNING = ("WAITING", "STARTING", "STARTED", "STOPPING")
 _DONE = ("STOPPED", "FINISHED")
 
 
-_LATE = ("[queued-request: the StartFlow request that created this instance was still in the internal event queue when its "
-         "requester / last activator ended, and was processed afterwards]")
+_LATE = ("[queued-request: the StartFlow request that created this instance (or the instance it was restarted from) was still in the "
+         "internal event queue when its requester / last activator ended, and was processed afterwards]")
 
 
 _DEAD_SHARE = ("[shared-at-death: the action is also held by a flow instance that ended in the very step in which the action was "
@@ -66,6 +67,9 @@ class _Monitor:
         self.act_fin = {}         # action uid -> step of the first incoming Finished
         self.ended_at = {}        # instance uid -> step after which it was first seen finished/failed
         self.late = {}            # instance uid -> why its StartFlow request was processed too late (see _LATE)
+        self.dead_refs = set()    # reference instances of an activation for which a queued restart outlived the last activator
+        self.ending = []          # stack of the instances _finish_flow / _abort_flow are currently ending
+        self.req_live = {}        # requested instance uid (restart of an activated flow) -> an activator was running when queued
         self.prev_running_ids = set()
         self.scoped_pairs = set(scoped_pairs)   # (flow_id, script) started inside a scope
         self.viol = []
@@ -86,22 +90,38 @@ class _Monitor:
             return
         src_ended = src_fs.status.name in _DONE and src_fs is not state.main_flow_state
         if a.get("activated"):
-            params = tuple((prm.name, repr(a.get(prm.name, a.get("$%d" % i))))
-                           for i, prm in enumerate(state.flow_configs[fid].parameters))
-            group = (fid, params)
+            group = self._group(state, a)
             self.members.setdefault(group, set()).add(new)
             if src_fs.flow_id != fid:
                 self.activations.setdefault(group, []).append(src)
                 if src_ended:
                     self.late[new] = _LATE
             else:
+                # a restart: `src` is the reference instance of the activation; once a restart was requested for it while no
+                # activator was running, everything restarted from it descends from that request
                 acts = self.activations.setdefault(group, [])
-                if not any(x in state.flow_states and state.flow_states[x].status.name in _RUNNING for x in acts):
+                live = any(x in state.flow_states and state.flow_states[x].status.name in _RUNNING for x in acts)
+                if src in self.dead_refs or (not live and self.req_live.get(new)):
+                    self.dead_refs.add(src)
                     self.late[new] = _LATE
         else:
             self.started_by[new] = src
             if src_ended:
                 self.late[new] = _LATE
+
+    def _group(self, state, a):
+        fid = a.get("flow_id")
+        return (fid, tuple((prm.name, repr(a.get(prm.name, a.get("$%d" % i))))
+                           for i, prm in enumerate(state.flow_configs[fid].parameters)))
+
+    def requested(self, state, event):
+        """a restart request of an activated flow is being queued: was an activator running (and not just ending) then?"""
+        a = event.arguments
+        if event.name != "StartFlow" or not a.get("activated") or a.get("flow_id") not in state.flow_configs:
+            return
+        acts = self.activations.get(self._group(state, a), [])
+        self.req_live[a.get("flow_instance_uid")] = any(
+            x in state.flow_states and state.flow_states[x].status.name in _RUNNING and x not in self.ending for x in acts)
 
     def begin(self, event):
         self.step += 1
@@ -229,14 +249,16 @@ class _Driver:
     def __init__(self):
         self.mon = None
         self.sm = None
-        self.orig = None
+        self.orig = {}
         self.parsed = {}
 
     def __enter__(self):
         import nemoguardrails.colang.v2_x.runtime.statemachine as sm
         self.sm = sm
-        self.orig = sm._process_internal_events_without_default_matchers
+        names = ("_process_internal_events_without_default_matchers", "_abort_flow", "_finish_flow", "_push_left_internal_event")
+        self.orig = {n: getattr(sm, n) for n in names}
         drv = self
+        orig = self.orig
 
         def hooked(state, event):
             if drv.mon is not None:
@@ -244,13 +266,37 @@ class _Driver:
                     drv.mon.internal(state, event)
                 except Exception:
                     pass
-            return drv.orig(state, event)
+            return orig["_process_internal_events_without_default_matchers"](state, event)
+
+        def ending(name):
+            def wrapper(state, flow_state, *a, **k):
+                mon = drv.mon
+                if mon is None:
+                    return orig[name](state, flow_state, *a, **k)
+                mon.ending.append(flow_state.uid)
+                try:
+                    return orig[name](state, flow_state, *a, **k)
+                finally:
+                    mon.ending.pop()
+            return wrapper
+
+        def push_left(state, event):
+            if drv.mon is not None:
+                try:
+                    drv.mon.requested(state, event)
+                except Exception:
+                    pass
+            return orig["_push_left_internal_event"](state, event)
 
         sm._process_internal_events_without_default_matchers = hooked
+        sm._abort_flow = ending("_abort_flow")
+        sm._finish_flow = ending("_finish_flow")
+        sm._push_left_internal_event = push_left
         return self
 
     def __exit__(self, *a):
-        self.sm._process_internal_events_without_default_matchers = self.orig
+        for n, f in self.orig.items():
+            setattr(self.sm, n, f)
         return False
 
     def init_state(self, src):
@@ -274,7 +320,7 @@ class _Driver:
              ("fin", i)           Finished for the i-th (mod n) action started so far (may be stopped/finished already: late)
              ("finlast",)         Finished for the most recently started action (early: before Started)
              ("started", i)       Started for the i-th action
-           returns (violations, crash)"""
+           returns (violations, crash, number of processed external events)"""
         import random
         import signal
         from native import v2
@@ -286,8 +332,12 @@ class _Driver:
 
         rstate = random.getstate()
         random.seed(seed)
-        old = signal.signal(signal.SIGALRM, on_alarm)
-        signal.setitimer(signal.ITIMER_REAL, limit_s)
+        try:
+            old = signal.signal(signal.SIGALRM, on_alarm)
+            signal.setitimer(signal.ITIMER_REAL, limit_s)
+            timer = True
+        except ValueError:       # not in the main thread: no watchdog
+            timer = False
         crash = None
         try:
             self.mon = None
@@ -324,8 +374,9 @@ class _Driver:
         except Exception as ex:
             crash = "raised %s: %s" % (type(ex).__name__, str(ex)[:160])
         finally:
-            signal.setitimer(signal.ITIMER_REAL, 0)
-            signal.signal(signal.SIGALRM, old)
+            if timer:
+                signal.setitimer(signal.ITIMER_REAL, 0)
+                signal.signal(signal.SIGALRM, old)
             random.setstate(rstate)
             self.mon = None
         return mon.viol, crash, mon.step
@@ -638,7 +689,52 @@ def _family(drv, name, cases, bound):
         viol, crash, steps = drv.run(src, h, seed, scoped)
         n += steps + 1
         seen.add((src, _fmt_history(h)))
-        for clause, outcome in viol[:1]:
+        for clause, outcome in ([v for v in viol if " [" not in v[1]] or viol)[:1]:   # prefer a violation without a race marker
+            sig = (clause, outcome[outcome.index(" ["):].split(":")[0].strip(" [") if " [" in outcome else "")
+            sigs[sig] = sigs.get(sig, 0) + 1
+            if sigs[sig] <= 2 and len(failing) < 8:
+                failing.append(dict(kind="post", function=name, file=SM, property_id=PROP, clause=clause,
+                                    inputs="%sevents=%s tie-break seed=%d\n%s" % (label + " " if label else "", _fmt_history(h), seed, src),
+                                    outcome=outcome))
+        if crash and len(crashes) < 3:
+            crashes.append("%s %s seed=%d: %s" % (label or src, _fmt_history(h), seed, crash))
+    if crashes:
+        bound += "; interpreter errors / non-termination (not counted as failures): " + " | ".join(crashes)
+    if sigs:
+        bound += "; failing runs by clause: " + "; ".join("%s%s: %d" % (c[:44].strip(), " (%s)" % q if q else "", k) for (c, q), k in sorted(sigs.items()))
+    return dict(function=name, evaluations=n, distinct=len(seen), failures=len(failing), failing=failing, bound=bound)
+
+
+# ---- templates: requests that are still queued when the requester ends; conflict resolution among dying flows ------
+def _race_templates():
+    out = []
+    never = _u("never")
+    for how in ("start", "activate"):
+        # b asks for c right after an awaited flow finished; b's own starter p continues (and ends) on FlowStarted(b), which is
+        # queued in front of the StartFlow(c) request
+        out.append(("queued:%s-after-await" % how, _render([
+            ("c", [never]), ("i", [_act("i.1")]), ("b", ["await i", "%s c" % how]), ("p", ["start b"]), ("main", ["start p", never])]),
+            (), [("u", "x")]))
+    # the activated flow a loses an action conflict against its activator p (restart request queued), then p finishes
+    out.append(("queued:restart-vs-activator-end", _render([
+        ("a", [_u("e"), _act("a.1")]), ("p", ["activate a", _u("e"), _act("p.1")]), ("main", ["start p", never])]),
+        (), [("u", "e"), ("u", "e")]))
+    # a and c (child of b) start the identical action on the same event, b starts a different one and loses
+    out.append(("conflict:identical-action-of-dying-flow", _render([
+        ("a", [_u("e"), _act("sh"), _u("enda")]), ("c", [_u("e"), _act("sh"), _u("endc")]),
+        ("b", ["start c", _u("e"), _act("b.1")]), ("main", ["start a", "start b", never])]),
+        (), [("u", "e"), ("u", "enda"), ("u", "endc")]))
+    return out
+
+
+def _family(drv, name, cases, bound):
+    """run the cases (label, src, scoped_pairs, history, seed); at most 2 failures are kept per (clause, marker) signature"""
+    failing, sigs, n, seen, crashes = [], {}, 0, set(), []
+    for label, src, scoped, h, seed in cases:
+        viol, crash, steps = drv.run(src, h, seed, scoped)
+        n += steps + 1
+        seen.add((src, _fmt_history(h)))
+        for clause, outcome in ([v for v in viol if " [" not in v[1]] or viol)[:1]:   # prefer a violation without a race marker
             sig = (clause, outcome[outcome.index(" ["):].split(":")[0].strip(" [") if " [" in outcome else "")
             sigs[sig] = sigs.get(sig, 0) + 1
             if sigs[sig] <= 2 and len(failing) < 8:
@@ -659,7 +755,7 @@ def native_checks(rng, tier):
     with _Driver() as drv:
         # ---------------------------------------------------------------- (1) activation templates
         templates = _activation_templates()
-        per = 12 if thorough else 4
+        per = 12 if thorough else 2
 
         def cases1():
             for label, src, scoped, alphabet in templates:
@@ -670,10 +766,13 @@ def native_checks(rng, tier):
                     yield label, src, scoped, h, rng.randint(0, 10 ** 6)
 
         yield _family(drv, "run_to_completion (activation lifetime)", cases1(),
-                      "%d activation hierarchies (9 bodies of the activated flow x 8 activator shapes incl. same flow activating twice, two "
-                      "activators, activator that is a child / itself activated x 6 ways the activator ends: finish, abort, failed await, lost "
-                      "action conflict, never) x (2 fixed + %d random) histories of 7 events over {ping,end,again,endq,pong, action "
-                      "Finished early/late, Started}; contract checked after every event" % (len(templates), per))
+                      "%d activation hierarchies (9 bodies of the activated flow: waits then acts / acts then waits / never waits / awaits an "
+                      "action / starts or awaits a child / activates another flow / or-group / when; x 9 activator shapes: activates once / twice / "
+                      "twice with an event in between / two activators / two activators one of them twice / activator is a child of the ending "
+                      "flow / activator is itself activated / and-group / two parameterisations; x 6 ways the activator ends: finish, finish "
+                      "after an action, abort, failed await, lost action conflict (random tie-break), never) x (2 fixed + %d random) histories "
+                      "of 7 events over {ping,end,again,endq,pong, action Finished early/late, Started}; contract checked after every event"
+                      % (len(templates), per))
 
         # ---------------------------------------------------------------- (2) shared actions / scopes
         templates2 = _sharing_templates()
@@ -693,18 +792,32 @@ def native_checks(rng, tier):
                       "or-group scope) and end one after the other (finish / abort) x (3 fixed + %d random) histories of <= 6 events"
                       % (len(templates2), per2))
 
-        # ---------------------------------------------------------------- (3) random hierarchies
-        n_prog = 4000 if thorough else 500
-        per3 = 5 if thorough else 4
+        # ---------------------------------------------------------------- (3) queued requests / conflict resolution among dying flows
+        templates3 = _race_templates()
+        nseeds = 24 if thorough else 8
 
         def cases3():
+            for label, src, scoped, h in templates3:
+                for _ in range(nseeds):
+                    yield label, src, scoped, h, rng.randint(0, 10 ** 6)
+
+        yield _family(drv, "run_to_completion (queued requests)", cases3(),
+                      "%d hierarchies in which a flow ends while a StartFlow request it issued (start / activate / restart of an activated "
+                      "flow) is still queued, or while the identical action of several flows is being resolved; 1 fixed history x %d random "
+                      "tie-break seeds" % (len(templates3), nseeds))
+
+        # ---------------------------------------------------------------- (4) random hierarchies
+        n_prog = 3000 if thorough else 400
+        per4 = 5 if thorough else 4
+
+        def cases4():
             for _ in range(n_prog):
                 src, scoped = _random_program(rng, rng.randint(2, 5), 4)
-                for _ in range(per3):
+                for _ in range(per4):
                     yield "", src, scoped, _random_history(rng, rng.randint(3, 7)), rng.randint(0, 10 ** 6)
 
-        yield _family(drv, "run_to_completion (random hierarchies)", cases3(),
+        yield _family(drv, "run_to_completion (random hierarchies)", cases4(),
                       "%d random hierarchies of 2-5 flows (<= 4 statements each: match / match and-or group / start action / await action / "
                       "shared action / start, await, activate (once, twice, and-group) a later flow / await or-group / when-or-when / abort) x %d "
                       "random histories of 3-7 events over {e0,e1,e2, action Finished early/late, Started}, one random tie-break seed each"
-                      % (n_prog, per3))
+                      % (n_prog, per4))
